@@ -41,20 +41,74 @@ Definition candidates (s : cstate) : list cev :=
   map CAddCloserAppend (seq 0 (length (addcl s))) ++
   map CAddAppend (seq 0 (length (cadds s))).
 
-Fixpoint settle (v : variant) (rounds : nat) (s : cstate) : cstate :=
-  match rounds with
-  | O => s
-  | S k => settle v k (fold_left (try_c v) (candidates s) s)
+(* nothing that happens on its own can happen *)
+Definition quietb_c (v : variant) (s : cstate) : bool :=
+  forallb (fun e => match step_c v s e with None => true | Some _ => false end) (candidates s).
+
+(* TERMINATION MEASURES (Proofs_live.v: every step that happens on its own strictly decreases
+   them).  They are the fuel of [settle]. *)
+Definition is_running (p : rproc) : bool := match p_st p with Running => true | _ => false end.
+Definition is_sending (p : rproc) : bool := match p_st p with Sending => true | _ => false end.
+Definition nrunning (ps : list rproc) : nat := length (filter is_running ps).
+Definition nsending (ps : list rproc) : nat := length (filter is_sending ps).
+Definition npending (l : list addst) : nat :=
+  length (filter (fun a => match a with AChecked _ => true | _ => false end) l).
+
+(* the part of the bound that belongs to Run: goroutine creation, 2 per running runner (return,
+   collection), 1 per ready result, Run's return *)
+Definition run_measure (s : rstate) : nat :=
+  match r_pc s with
+  | RIdle => 0
+  | RStarted => 2 + 3 * length (r_runners s)
+  | RCollecting _ _ => 1 + 2 * nrunning (r_procs s) + nsending (r_procs s)
+  | RReturned _ => 0
   end.
 
-Definition rounds : nat := 12.
+Definition rm_measure (s : rstate) : nat := 4 * npending (r_adds s) + run_measure s.
+
+Definition wsum {A} (w : A -> nat) (l : list A) : nat := fold_right (fun x n => w x + n) 0 l.
+
+Definition crank (p : cproc) : nat :=
+  match c_st p with CSpawned => 3 | CRunning => 2 | CRet => 1 | CColl => 0 end.
+Definition krank (k : kst) : nat := match k with KA => 2 | KB => 1 | KRet _ => 0 end.
+Definition clpend (a : acst) : nat := match a with ACChecked _ => 1 | _ => 0 end.
+Definition capend (a : cadd) : nat := match a with CAPending _ => 1 | _ => 0 end.
+
+(* what shutdown can still do on its own: 3 steps per closer goroutine (start, return / the fatal
+   closer's choice, collection), closing closeFatalShutdown, Run's return *)
+Definition closer_bound (s : cstate) : nat := 3 * length (closers s) + 2.
+Definition shutdown_measure (s : cstate) : nat :=
+  wsum crank (c_procs s) + (if fch_closed s then 0 else 1) + 1.
+
+Definition run_part (s : cstate) : nat :=
+  match c_pc s with
+  | CIdle => 0
+  | CStarted => 8 + 3 * length (r_runners (inner s)) + closer_bound s
+  | CDecided _ => 4 + 3 * length (r_runners (inner s)) + closer_bound s
+  | CWaitInner => run_measure (inner s) + 1 + closer_bound s
+  | CCollect _ _ _ => shutdown_measure s
+  | CDone _ => 0
+  end.
+
+Definition cm_measure (s : cstate) : nat :=
+  4 * wsum clpend (addcl s) + 2 * wsum capend (cadds s) + wsum krank (closes s) + run_part s.
+
+(* one round tries every candidate once, in order, on the evolving state; rounds are repeated
+   until nothing is enabled.  [S (cm_measure s)] rounds always suffice (C12_settle_quiet). *)
+Fixpoint settle (v : variant) (fuel : nat) (s : cstate) : cstate :=
+  match fuel with
+  | O => s
+  | S k => if quietb_c v s then s else settle v k (fold_left (try_c v) (candidates s) s)
+  end.
+
+Definition settled (v : variant) (s : cstate) : cstate := settle v (S (cm_measure s)) s.
 
 (* goroutine index of user closer j *)
 Definition pidx (grace : option Z) (j : nat) : nat :=
   match grace with Some _ => S j | None => j end.
 
 Definition do_act (v : variant) (grace : option Z) (s : cstate) (a : act) : cstate :=
-  settle v rounds
+  settled v
     (match a with
      | SRun => try_c v s CRunCas
      | SReturnRunner i => try_c v s (CInner (RRunnerReturn i))
@@ -81,14 +135,19 @@ Definition candidates_r (s : rstate) : list revt :=
   map RCollect (seq 0 (length (r_procs s))) ++ [RRunReturn] ++
   map RAddAppend (seq 0 (length (r_adds s))).
 
-Fixpoint settle_r (v : variant) (rounds : nat) (s : rstate) : rstate :=
-  match rounds with
+Definition quietb_r (v : variant) (s : rstate) : bool :=
+  forallb (fun e => match step_r v s e with None => true | Some _ => false end) (candidates_r s).
+
+Fixpoint settle_r (v : variant) (fuel : nat) (s : rstate) : rstate :=
+  match fuel with
   | O => s
-  | S k => settle_r v k (fold_left (try_r v) (candidates_r s) s)
+  | S k => if quietb_r v s then s else settle_r v k (fold_left (try_r v) (candidates_r s) s)
   end.
 
+Definition settled_r (v : variant) (s : rstate) : rstate := settle_r v (S (rm_measure s)) s.
+
 Definition do_act_r (v : variant) (s : rstate) (a : act) : rstate :=
-  settle_r v rounds
+  settled_r v
     (match a with
      | SRun => try_r v s RRunCas
      | SReturnRunner i => try_r v s (RRunnerReturn i)
@@ -99,6 +158,57 @@ Definition do_act_r (v : variant) (s : rstate) (a : act) : rstate :=
 
 Definition exec_r (v : variant) (bs : list beh) (script : list act) : rstate :=
   fold_left (do_act_r v) script (new_rm bs).
+
+(* ------------------------------------------------------------------------------------------ *)
+(* quiescence: nothing that happens on its own ([candidates]) can happen.  What may then still be  *)
+(* pending is spelled out: a quiescent manager whose Run has not returned is waiting for a runner   *)
+(* or a closer of the USER (no-wedge theorems of Proofs_live.v).                                    *)
+
+(* a runner goroutine Run legitimately waits for: it is running and either returns only when the
+   environment says so ([Free]) or waits for a cancellation / a Close that has not happened *)
+Definition runner_waits (s : rstate) (p : rproc) : Prop :=
+  p_st p = Running /\ (auto_beh (p_beh p) = false \/ may_return s (p_beh p) = false).
+Definition runner_waitsb (s : rstate) (p : rproc) : bool :=
+  match p_st p with
+  | Running => negb (auto_beh (p_beh p)) || negb (may_return s (p_beh p))
+  | _ => false
+  end.
+
+(* a closer Run legitimately waits for: a user closer that is running *)
+Definition closer_waits (p : cproc) : Prop := c_st p = CRunning /\ is_fatal (c_cl p) = false.
+Definition closer_waitsb (p : cproc) : bool :=
+  match c_st p with CRunning => negb (is_fatal (c_cl p)) | _ => false end.
+
+Definition quiet_r (v : variant) (s : rstate) : Prop :=
+  forall e, In e (candidates_r s) -> step_r v s e = None.
+
+Definition quiet_c (v : variant) (s : cstate) : Prop :=
+  forall e, In e (candidates s) -> step_c v s e = None.
+
+(* every Close call has returned *)
+Definition closes_returned (s : cstate) : Prop :=
+  forall c k, nth_error (closes s) c = Some k -> exists e, k = KRet e.
+Definition closes_returnedb (s : cstate) : bool :=
+  forallb (fun k => match k with KRet _ => true | _ => false end) (closes s).
+
+(* what a quiescent state of the bare manager looks like *)
+Definition explained_r (s : rstate) : Prop :=
+  r_running s = false \/ (exists errs, r_pc s = RReturned errs) \/
+  exists p, In p (r_procs s) /\ runner_waits s p.
+Definition explainedb_r (s : rstate) : bool :=
+  negb (r_running s) || match r_pc s with RReturned _ => true | _ => false end ||
+  existsb (runner_waitsb s) (r_procs s).
+
+(* ... and of the closer manager: never started (or stopped by Close) with every Close call back;
+   or finished with every Close call back; or waiting for a user's runner or closer *)
+Definition explained_c (s : cstate) : Prop :=
+  (c_pc s = CIdle /\ closes_returned s) \/
+  ((exists errs, c_pc s = CDone errs) /\ closes_returned s) \/
+  (exists p, In p (r_procs (inner s)) /\ runner_waits (inner s) p) \/
+  (exists p, In p (c_procs s) /\ closer_waits p).
+Definition explainedb_c (s : cstate) : bool :=
+  (match c_pc s with CIdle | CDone _ => closes_returnedb s | _ => false end) ||
+  existsb (runner_waitsb (inner s)) (r_procs (inner s)) || existsb closer_waitsb (c_procs s).
 
 (* ------------------------------------------------------------------------------------------ *)
 (* outcomes (order-free): what Run returned, how many Run calls were refused, what each Close     *)
@@ -227,10 +337,14 @@ Definition model_agrees (c : case) : bool :=
   | CMgr grace bs cls script t =>
       let nr := n_runners bs script in
       let nc := n_user_closers cls script in
-      eqb_outcome (outcome_c grace nr nc (exec_c Fixed grace bs cls script)) (outcome_t nr nc t)
+      let s := exec_c Fixed grace bs cls script in
+      eqb_outcome (outcome_c grace nr nc s) (outcome_t nr nc t) &&
+      (* the model has settled, and what is left pending is what the no-wedge theorem says *)
+      quietb_c Fixed s && explainedb_c s
   | CPlain bs script t =>
       let nr := n_runners bs script in
-      eqb_outcome (outcome_r nr (exec_r Fixed bs script)) (outcome_t nr 0 t)
+      let s := exec_r Fixed bs script in
+      eqb_outcome (outcome_r nr s) (outcome_t nr 0 t) && quietb_r Fixed s && explainedb_r s
   | CStress _ _ _ => true
   end.
 
